@@ -361,6 +361,13 @@ func c16Eval(c *Ctx, kind string, raw []byte) {
 			loadPairs = c16PairsWire(lp.Map())
 		}
 		// --- encoders: EncoderFn (directly and through the provider), DomEncoderFn
+		// An earlier encode of an unrelated map whose writer failed must leave no trace in a later
+		// encode (the round-trip clause holds for every history of calls, not only the first).
+		decoy := map[string]interface{}{"zz_decoy.user": "u", "zz_decoy.password": "p"}
+		_ = props.EncoderFn(&failAfterWriter{n: 3}, decoy)
+		decoyDom := dom.Builder().Container()
+		decoyDom.AddValue("zz_decoy.user", dom.LeafNode("u")).AddValue("zz_decoy.password", dom.LeafNode("p"))
+		_ = props.DomEncoderFn(&failAfterWriter{n: 3}, decoyDom)
 		for i, enc := range []dom.EncoderFunc{props.EncoderFn, common.DefaultFileEncoderProvider("x.properties")} {
 			var buf bytes.Buffer
 			err := enc(&buf, kvAny())
